@@ -588,6 +588,15 @@ fn panic_sig(site: &PanicSite, fmt: Fmt, class: &str) -> String {
     if let Some(i) = s.file.rfind("/repo/") {
         s.file = s.file[i + 6..].to_string();
     }
+    // literal classes whose characters must be escaped in the text form are one class here: a reader
+    // that meets them unescaped sees arbitrary token debris, whichever of them it was
+    let mut class = class.to_string();
+    for unescaped in ["literal_edge_linebreak", "literal_escape_combined", "literal_escape", "literal_leading_dquote"] {
+        if class.ends_with(unescaped) {
+            class = format!("{}literal_unescaped", &class[..class.len() - unescaped.len()]);
+            break;
+        }
+    }
     format!("{}|{}.{}", s.sig(), fmt.tag(), class)
 }
 
